@@ -13,9 +13,14 @@ var strs = []string{"", "a", "b", "ab", "B", "10", "9", "z\x00", "\xff", "abc", 
 func zp(i int64) *int64 { return &i }
 func vp(v tv.V) *tv.V   { return &v }
 
-// flavour: 0 numbers, 1 strings, 2 numbers+strings (concat works, < fails), 3 anything
+// flavour: 0 numbers, 1 strings, 2 numbers+strings (concat works, < fails), 3 anything,
+// 4 objects only (ordered through an __lt metamethod), 5 numbers from a wide range (few duplicates)
 func genVal(g *lib.Rand, flavour int) tv.V {
 	switch flavour {
+	case 4:
+		return tv.Obj(g.Intn(6))
+	case 5:
+		return tv.Int(int64(g.Range(-400, 400)))
 	case 0:
 		return tv.Int(int64(g.Range(-5, 12)))
 	case 1:
@@ -38,6 +43,17 @@ func genVal(g *lib.Rand, flavour int) tv.V {
 }
 
 func genCmp(g *lib.Rand, flavour int) *Cmp {
+	if flavour == 4 && g.Chance(85) || g.Chance(2) {
+		// no comparator function (or a < b): the elements are ordered by their __lt metamethod
+		k := "meta"
+		if g.Chance(30) {
+			k = "metalt"
+		}
+		return &Cmp{Kind: k, B: g.Bool()}
+	}
+	if flavour == 5 {
+		flavour = 0
+	}
 	switch g.Pick(22, 18, 14, 12, 8, 14, 12) {
 	case 0:
 		if g.Chance(30) {
@@ -71,11 +87,66 @@ func genCmp(g *lib.Rand, flavour int) *Cmp {
 	return &Cmp{Kind: "failat", K: int64(g.Range(1, 12))}
 }
 
+// genInnerCmp: comparator of a nested sort. safe = it cannot raise on a list of the given flavour
+// (0 numbers, 1 strings) - a nested sort that is not under pcall must not fail, or the failure
+// would (legitimately) end the outer sort.
+func genInnerCmp(g *lib.Rand, flavour int, safe bool) *Cmp {
+	for {
+		c := genCmp(g, flavour)
+		switch c.Kind {
+		case "meta", "metalt":
+			continue
+		case "failat":
+			if safe {
+				continue
+			}
+		case "mod":
+			if flavour != 0 {
+				continue
+			}
+		}
+		return c
+	}
+}
+
+// genNest: what a comparator does besides answering (see Nest). depth 1 = acts of the outer
+// comparator; their comparators may re-enter once more (depth 2).
+func genNest(g *lib.Rand, depth int) *Nest {
+	n := &Nest{At: int64(g.Range(1, 4)), Every: int64([]int{0, 1, 1, 2, 3, 5}[g.Intn(6)])}
+	for i, k := 0, g.Range(1, 3); i < k; i++ {
+		a := NestAct{Kind: []string{"sort", "sort", "sort", "pcall", "pcall", "co", "state2"}[g.Intn(7)]}
+		fl := g.Intn(2)
+		safe := a.Kind != "pcall" && a.Kind != "state2"
+		if !safe && g.Chance(35) {
+			fl = 2 // numbers and strings mixed: a < b raises
+		}
+		for j, m := 0, g.Pick(3, 6, 25, 25, 15, 10, 8, 5, 3); j < m; j++ {
+			a.List = append(a.List, genVal(g, fl))
+		}
+		if depth == 1 && g.Chance(4) {
+			// long enough for the sorting routine to leave its insertion-sort range
+			for j := 0; j < 14; j++ {
+				a.List = append(a.List, genVal(g, fl))
+			}
+		}
+		a.Cmp = genInnerCmp(g, fl%2, safe)
+		if fl == 2 && (a.Cmp.Kind == "mod" || a.Cmp.Kind == "const" || a.Cmp.Kind == "bits") {
+			a.Cmp = &Cmp{Kind: "lt"}
+		}
+		if depth == 1 && a.Cmp.Kind != "default" && a.Cmp.Kind != "nil" && g.Chance(30) {
+			a.Nest = genNest(g, 2)
+		}
+		n.Acts = append(n.Acts, a)
+	}
+	return n
+}
+
 type planner struct {
 	g       *lib.Rand
 	left    int
 	flavour int
 	sortPct int
+	nestPct int
 	offPct  int
 	pending []Step
 	isOff   bool
@@ -121,9 +192,14 @@ func (p *planner) next(r *runner) *Step {
 			if g.Bool() {
 				c = &Cmp{Kind: "const", B: true}
 			}
-			return &Step{Op: "sortmut", I: zp(int64(g.Range(1, 6))), Cmp: c}
+			return &Step{Op: "sortmut", I: zp(int64(g.Range(1, 6))), Cmp: c, Act: []string{"", "", "sortself", "sortself", "insert"}[g.Intn(5)]}
 		}
-		return mut(Step{Op: "sort", Cmp: genCmp(g, p.flavour)})
+		st := Step{Op: "sort", Cmp: genCmp(g, p.flavour)}
+		if k := st.Cmp.Kind; k != "default" && k != "nil" && n >= 2 && g.Chance(p.nestPct) {
+			st.Nest = genNest(g, 1)
+		}
+		st.Co = g.Chance(6)
+		return mut(st)
 	}
 	if g.Chance(5) {
 		if g.Chance(20) {
@@ -237,8 +313,41 @@ func generate(w *lib.Writer, r *lib.Rand, tier string) {
 		if i >= nl {
 			class = "sort"
 			p.sortPct = 12
-			p.flavour = g.Pick(45, 30, 15, 10)
+			p.nestPct = 35
+			p.flavour = g.Pick(40, 27, 13, 9, 11)
 			p.left = g.Range(12, 45)
+		}
+		if i >= nl && i%100 == 13 {
+			// a long list: sort.Sort leaves its insertion-sort range (12), samples pivots (50), may fall
+			// back to heap sort; then sorted again (already ordered input) and in the reverse order
+			class = "sortlong"
+			fl := []int{5, 5, 1, 0}[g.Intn(4)]
+			withFn := g.Chance(60)
+			k := g.Range(150, 400)
+			if withFn {
+				k = g.Range(40, 110)
+			}
+			var steps []Step
+			for q := 0; q < k; q++ {
+				steps = append(steps, Step{Op: "ins2", V: vp(genVal(g, fl))})
+			}
+			c1, c2 := &Cmp{Kind: "default"}, &Cmp{Kind: "nil"}
+			if withFn {
+				c1 = &Cmp{Kind: []string{"lt", "gt", "lt_truthy"}[g.Intn(3)]}
+				c2 = &Cmp{Kind: "gt"}
+				if fl != 1 && g.Bool() {
+					c1 = &Cmp{Kind: "mod", M: int64(g.Range(2, 7))}
+				}
+			}
+			s1 := Step{Op: "sort", Cmp: c1, Co: g.Chance(10)}
+			if withFn && g.Chance(50) {
+				s1.Nest = genNest(g, 1)
+				s1.Nest.Every = int64(g.Range(20, 90))
+			}
+			steps = append(steps, Step{Op: "read"}, s1, Step{Op: "read"}, Step{Op: "sort", Cmp: c1}, Step{Op: "sort", Cmp: c2}, Step{Op: "read"},
+				Step{Op: "rem2", I: zp(int64(g.Range(1, k)))}, Step{Op: "ins3", I: zp(int64(g.Range(1, k))), V: vp(genVal(g, fl))}, Step{Op: "sort", Cmp: c1}, Step{Op: "read"})
+			runCase(w, &Input{Steps: steps}, class, nil)
+			continue
 		}
 		if g.Chance(12) {
 			p.offPct = 4
